@@ -743,10 +743,22 @@ func (p *Peer) retryDoc(ctx context.Context, peerIDString string, docID string) 
 		if err != nil {
 			return err
 		}
+		// A push must name the collection by its ID, like the initial push does. The block only
+		// knows the schema version it was written under, which the receiver may not have.
+		cols, err := clientTxn.GetCollections(ctx, client.CollectionFetchOptions{
+			VersionID:       immutable.Some(head.block.Delta.GetSchemaVersionID()),
+			IncludeInactive: immutable.Some(true),
+		})
+		if err != nil {
+			return err
+		}
+		if len(cols) == 0 {
+			return client.NewErrCollectionNotFoundForCollectionVersion(head.block.Delta.GetSchemaVersionID())
+		}
 		updateEvent := event.Update{
 			DocID:        docID,
 			Cid:          head.cid,
-			CollectionID: head.block.Delta.GetSchemaVersionID(),
+			CollectionID: cols[0].Version().CollectionID,
 			Block:        rawblock,
 			IsRetry:      true,
 		}
